@@ -229,7 +229,8 @@ def rec_cond(vc, rid, name, base, tr, q, rng):
 
 
 def rec_iform(vc, rid, name, base, tr, alpha, npoints, pf, seed):
-    r = dict(id=rid, kind="iform", exc="", name=name, npoints=npoints, d0=[], d1=[], n0=1, n1=[], repro=True, seedmatters=True)
+    r = dict(id=rid, kind="iform", exc="", name=name, npoints=npoints, d0=[], d1=[], n0=1, n1=[], repro=True, seedmatters=True,
+             reproaftercache=True)
     try:
         with warnings.catch_warnings():
             warnings.simplefilter("ignore")
@@ -237,6 +238,15 @@ def rec_iform(vc, rid, name, base, tr, alpha, npoints, pf, seed):
             c1 = np.asarray(vc.IFORMContour(t, alpha, n_points=npoints).coordinates, dtype=float)
             c2 = np.asarray(vc.IFORMContour(tmodel(vc, base, tr, pf=pf, rs=seed), alpha, n_points=npoints).coordinates, dtype=float)
             c3 = np.asarray(vc.IFORMContour(tmodel(vc, base, tr, pf=pf, rs=seed + 1), alpha, n_points=npoints).coordinates, dtype=float)
+        # history: the same model object after its lazy 1e6-sample cache was filled (empirical_cdf / .sample)
+        # must still give exactly the contour of a fresh model with the same random_state
+        with warnings.catch_warnings():
+            warnings.simplefilter("ignore")
+            t4 = tmodel(vc, base, tr, pf=pf, rs=seed)
+            t4.empirical_cdf(np.array([[1.0, 5.0]]))
+            c4 = np.asarray(vc.IFORMContour(t4, alpha, n_points=npoints).coordinates, dtype=float)
+            c5 = np.asarray(vc.IFORMContour(t4, alpha, n_points=npoints).coordinates, dtype=float)
+        r["reproaftercache"] = bool(np.array_equal(c4, c5) and np.array_equal(c4, c1))
         r["repro"] = bool(np.array_equal(c1, c2))
         r["seedmatters"] = bool(not np.array_equal(c1, c3))
         beta = ND.inv_cdf(1 - alpha)
@@ -289,6 +299,7 @@ def run(ctx):
     ctx.model_check("SupportSearch", "MC_SupportSearch_ascoded.cfg", expect_violation="NoTailTruncation")
     ctx.model_check("Transformed", "MC_Transformed.cfg", must_cover=("Compute",))
     ctx.model_check("Transformed", "MC_Transformed_mut.cfg", expect_violation="Reproducible")
+    ctx.model_check("Transformed", "MC_Transformed_cache.cfg", expect_violation="Reproducible")
 
     models = fitted_models(vc, rng, ctx.pick(2, 8))
     recs = []
@@ -317,6 +328,9 @@ def run(ctx):
     for name, base, tr in models:
         add(rec_pushforward(vc, nid(), name, base, tr, rng, ctx.quick))
         add(rec_samples(vc, nid(), name, base, tr, rng, int(rng.choice([1, 10, 1000, 100000]))))
+    # sizes above one million (block-wise drawing must not restart the seeded stream)
+    for name, base, tr in models[:ctx.pick(1, 3)]:
+        add(rec_samples(vc, nid(), name + " n>1e6", base, tr, rng, ctx.pick(1200000, 3500000)))
     for name, base, tr in models[:ctx.pick(1, 3)]:
         add(rec_cdfemp(vc, nid(), name, base, tr, rng))
     qs = ctx.pick([0.5, 0.9, 0.99, 0.999, 0.9999], [0.1, 0.5, 0.9, 0.99, 0.999, 0.9999, 0.99999])
